@@ -29,41 +29,77 @@ def h8(s):
 # --------------------------------------------------------------------------
 # the plan: which scenario a run index executes (pure function of tier/index)
 # --------------------------------------------------------------------------
-def build_plan(tier, nruns=None):
-    """-> list of (scenario, param) ; index i executes plan[i]"""
+def _sweep_kinds(tier, seed):
+    """operation kinds swept by the directed samekind / firstuse scenarios.  The
+    seven ad-hoc field families repeat the same FQ/FQP code paths with other
+    class attributes: the quick tier sweeps a seeded quarter of their kinds (all
+    of them over four consecutive seeds), the thorough tier all of them."""
+    tps = sorted(G.TEMPLATES, key=lambda t: (-t.cost, t.kind))
+    if tier != "quick":
+        return tps
+    out = []
+    for t in tps:
+        if t.group.startswith("field:") and t.group[6:] in G.ADHOC:
+            h = int(hashlib.sha1(t.kind.encode()).hexdigest()[:8], 16)
+            if (h + seed) % 4 != 0:
+                continue
+        out.append(t)
+    return out
+
+
+def build_plan(tier, nruns=None, seed=0):
+    """-> list of (scenario, param, faults) ; index i executes plan[i].
+    A pure function of (tier, nruns, seed).  The order is what a worker follows,
+    so under a wall-clock budget a prefix of it is executed: expensive runs
+    come first (load balance), everything else is shuffled so that any prefix is
+    a fair sample of all scenario classes."""
     plan = []
-    tps = sorted(G.TEMPLATES, key=lambda t: -t.cost)
+    tps = _sweep_kinds(tier, seed)
     if tier == "quick":
         for t in tps:
             plan.append(("samekind", t.kind, False))
         for t in tps:
             plan.append(("firstuse", t.kind, True))
-        nrand = 1500 if nruns is None else max(0, nruns - len(plan))
+        nrand = 1000
+        pr = random.Random(777 + seed)
+        for i in range(16):
+            plan.append(("cold", None, bool(i % 2)))
+        for i in range(6):
+            plan.append(("cold-order", pr.randrange(720), False))
+        directed = (("crosssuite", 32), ("sharedvals", 48), ("classchurn", 48))
     else:
         for rep in range(3):
             for t in tps:
                 plan.append(("samekind", t.kind, rep == 2))
             for t in tps:
                 plan.append(("firstuse", t.kind, rep != 1))
-        nrand = 30000 if nruns is None else max(0, nruns - len(plan))
-    if tier == "quick":
-        pr = random.Random(777)
-        for i in range(24):
-            plan.append(("cold", None, bool(i % 2)))
-        for i in range(8):
-            plan.append(("cold-order", pr.randrange(720), False))
-    else:
+        nrand = 30000
         for i in range(160):
             plan.append(("cold", None, bool(i % 2)))
         for i in range(720):
             plan.append(("cold-order", i, False))
-    mix = [("random-light", 46), ("random-medium", 24), ("random-heavy", 6),
-           ("crosscurve", 10), ("evict", 8), ("samekind-rand", 6)]
+        directed = (("crosssuite", 400), ("sharedvals", 600), ("classchurn", 600))
+    for name, cnt in directed:
+        for i in range(cnt):
+            plan.append((name, None, i % 4 == 3))
+    mix = [("random-light", 44), ("random-medium", 24), ("random-heavy", 6),
+           ("crosscurve", 8), ("evict", 8), ("samekind-rand", 6), ("sharedvals", 3),
+           ("classchurn", 3), ("crosssuite", 2)]
     names = [m for m, _ in mix]
     ws = [w for _, w in mix]
     r = random.Random(12345)
     for i in range(nrand):
         plan.append((r.choices(names, ws)[0], None, bool(i % 2)))
+
+    def heavy(e):
+        if e[0] in ("samekind", "firstuse"):
+            return G.BY_KIND[e[1]].cost >= 100
+        return e[0] in ("random-heavy", "cold", "cold-order")
+    first = [e for e in plan if heavy(e)]
+    rest = [e for e in plan if not heavy(e)]
+    random.Random(424242).shuffle(first)
+    random.Random(434343).shuffle(rest)
+    plan = first + rest
     if nruns is not None:
         plan = plan[:nruns]
     return plan
@@ -87,6 +123,13 @@ def make_spec(server, seed, index, tier, entry):
         spec = g.scn_cold_order(param)
     elif scen == "crosscurve":
         spec = g.scn_crosscurve(faults=faults)
+    elif scen == "crosssuite":
+        spec = g.scn_crosssuite(faults=faults)
+    elif scen == "sharedvals":
+        spec = g.scn_sharedvals(faults=faults)
+    elif scen == "classchurn":
+        spec = g.scn_classchurn(faults=faults,
+                                rounds=None if not thorough else rng.randint(6, 14))
     elif scen == "evict":
         spec = g.scn_evict(nops=rng.randint(20, 60) if not thorough else rng.randint(40, 250),
                            faults=faults)
@@ -236,13 +279,37 @@ def handle_violation(server, out, replay_dir, seed, index, shrink_budget_s=150):
     small, steps = SH.shrink(server, m, cls, budget_s=shrink_budget_s)
     doc = dict(small)
     doc.pop("res", None)
+    attempts = 1
     # final confirmation: replay the minimised spec once more, fresh fork
     again = execute(server, small, want_cov=False)
     av = [v for v in again.get("violations", ()) if violation_class(v) == cls]
+    if not av:
+        # the minimised history does not fail on its own (e.g. the failure needs
+        # an identity reuse that the shorter history no longer produces): report
+        # the original history, after checking that it fails again
+        orig = dict(m)
+        orig.pop("res", None)
+        for attempts in range(1, 7):
+            again = execute(server, orig, want_cov=False)
+            av = [v for v in again.get("violations", ()) if violation_class(v) == cls]
+            if av:
+                break
+        doc = orig
+        steps = -steps
+        if attempts > 1 or not av:
+            # depends on something the history does not fix (typically which
+            # address a new object gets): the replay command re-executes it
+            # several times
+            doc["replay_attempts"] = 12
     doc["violation"] = av[0] if av else v0
     doc["violation"]["kind"] = v0["kind"]
     doc["shrink"] = {"steps": steps, "seconds": round(time.monotonic() - t0, 1),
                      "reproduced_after_shrink": bool(av)}
+    if not av:
+        doc["shrink"]["last_attempt"] = {
+            "harness_error": again.get("harness_error"),
+            "violations": [[v.get("invariant"), v.get("function"), v.get("task"), v.get("op")]
+                           for v in (again.get("violations") or [])[:8]]}
     if not str(doc.get("scenario", "")).startswith("cold"):
         doc["server"] = dict(server.variant)
     os.makedirs(replay_dir, exist_ok=True)
@@ -305,11 +372,12 @@ def main():
     try:
         server = Server(import_order=order, cache_dir=job.get("cache_dir"), variant=variant,
                         peer_cache_dirs=job.get("peer_cache_dirs"))
-    except Exception as e:  # import failure of the tree etc.
-        print(json.dumps({"type": "harness_error", "what": "server start: %r" % (e,)}))
+    except Exception as e:  # import failure of the tree (in this variant's order/flags)
+        print(json.dumps({"type": "start_failure", "error": "%r" % (e,),
+                          "exc": C._typename(type(e)), "variant": variant}))
         sys.stdout.flush()
-        return 2
-    plan = build_plan(tier, job.get("nruns"))
+        return 3
+    plan = build_plan(tier, job.get("nruns"), seed)
     print(json.dumps({"type": "hello", "variant": variant,
                       "hashseed": os.environ.get("PYTHONHASHSEED"),
                       "optimize": sys.flags.optimize,
